@@ -79,5 +79,38 @@ pub trait LenderGroup {
 }
 impl LenderGroup for Imp { type LentG = Kid; fn lend_group(&self) -> &Kid { &self.kid } }
 
+/// a context that is NOT reference counted: cloning deep-copies a heap cell, dropping frees it.
+/// A derived object that merely aliases another object's context (instead of owning a clone) ends
+/// up using freed memory.
+pub static mut HEAP_CTX_LIVE: i32 = 0;
+pub struct HeapCtx(pub Box<u32>);
+impl Clone for HeapCtx { fn clone(&self) -> Self { unsafe { HEAP_CTX_LIVE += 1 }; HeapCtx(Box::new(*self.0)) } }
+impl Drop for HeapCtx { fn drop(&mut self) { assert!(*self.0 == 0xC7C7, "C07 a context is intact when released"); unsafe { HEAP_CTX_LIVE -= 1 } } }
+impl HeapCtx { pub fn new() -> Self { unsafe { HEAP_CTX_LIVE += 1 }; HeapCtx(Box::new(0xC7C7)) } }
+
+/// a lent child that itself hands out owned grandchildren (so the child's own context is used)
+#[cglue_trait]
+pub trait Mid {
+    #[wrap_with_obj(Leaf)]
+    type Grand: Leaf + 'static;
+    fn grand(&self, id: u32) -> Self::Grand;
+}
+impl Mid for Kid { type Grand = Kid; fn grand(&self, id: u32) -> Kid { Kid { id: id ^ self.id } } }
+#[cglue_trait]
+pub trait LenderMid {
+    #[wrap_with_obj_ref(Mid)]
+    type LentMid: Mid + 'static;
+    fn lend_mid(&self) -> &Self::LentMid;
+}
+impl LenderMid for Imp { type LentMid = Kid; fn lend_mid(&self) -> &Kid { &self.kid } }
+/// lifetime-generic trait lending a mutable child bounded by that lifetime
+#[cglue_trait]
+pub trait LenderLt<'a> {
+    #[wrap_with_obj_mut(Leaf)]
+    type LentLt: Leaf + 'a;
+    fn lend_lt(&'a mut self) -> &'a mut Self::LentLt;
+}
+impl<'a> LenderLt<'a> for Imp { type LentLt = Kid; fn lend_lt(&mut self) -> &mut Kid { &mut self.kid } }
+
 #[cfg(kani)]
 mod verif;
